@@ -341,12 +341,23 @@ pub fn c13(tier: &str, seed: u64) {
           let r = std::panic::catch_unwind(std::panic::AssertUnwindSafe(|| {
             let (bp2, _) = Client::blind(&input);
             match srv.eval(&bp2, md, true) {
-              Ok(ev2) => Client::verify(&vpk, &bp2, &ev2, md) && Client::verify(&pk, &bp2, &ev2, md),
-              Err(_) => false,
+              Ok(ev2) => (Client::verify(&vpk, &bp2, &ev2, md) && Client::verify(&pk, &bp2, &ev2, md), ev2.proof.as_ref().map(proof_cs)),
+              Err(_) => (false, None),
             }
           }));
-          if r.as_ref().ok() != Some(&true) {
+          if r.as_ref().ok().map(|x| x.0) != Some(true) {
             fail("honest_proof_rejected", &[("server_state", what.to_string()), ("input", hex(&input)), ("md", md.to_string()), ("mds", hex(&mds)), ("panicked", r.is_err().to_string())]);
+          }
+          // the nonce commitment of a copy's proof is as fresh as any other: a clone or an importer
+          // must not continue the original's nonce sequence (a repeated nonce exposes the key)
+          if let Ok((_, Some((c2, s2)))) = r {
+            if let Some(pos) = pk_entry_pos(&pkb, md) {
+              let pkv = dec(&pkb[..32]) + dec(&pkb[pos + 1..pos + 33]);
+              let t2 = (s2 * BASE + c2 * pkv).compress().as_bytes().to_vec();
+              if !commitments.insert(t2.clone()) {
+                fail("proof_nonce_repeated", &[("t2", hex(&t2)), ("server_state", what.to_string()), ("what", "a copy of the server repeated a nonce commitment of the original".into())]);
+              }
+            }
           }
           case(true);
           stat(&format!("c13.state.{}", what));
